@@ -8,8 +8,9 @@ SPEC = dict(
     rtol=1e-9, atol=1e-12,
     rule="cases from VERIF_SEED by harness/C28.cpp; each case exercises every static helper of Rotation_<double> "
          "(3/4 of the cases) or Rotation_<float>: body-fixed XYZ angles with |cos q1| >= 0.2 (generic) or within "
-         "1e-1..1e-4 of the singularity (tolerances scaled by the conditioning 1/|cos q1|), unit and un-normalised "
-         "quaternions (|q| in 0.3..3), angular velocities / accelerations / rates of magnitude 0.1..10; "
+         "1e-1..1e-4 of the singularity (tolerances scaled by the conditioning 1/|cos q1|, first power only); guaranteed shares: "
+         "50 % generic Euler, 10 % near-singular, 20 % unit quaternions, 20 % un-normalised quaternions (|q| in 0.3..3); one "
+         "case in five has zero components in w / wdot / qdot; angular velocities / accelerations / rates of magnitude 0.1..10; "
          "distinct = distinct input records",
     partial=None,
     assumptions=[
@@ -17,6 +18,6 @@ SPEC = dict(
         "(c - eps*s*qd, s + eps*c*qd) (the definition of the derivative of cos/sin, DESIGN §3.6)",
         "'R(t) moves with angular velocity w' is read as Rdot = [w]x R (w in the parent) / Rdot = R [w]x (w in the body)",
         "the quaternion theorems need 2 != 0 in the field (the helpers halve and double)",
-        "the implementation-side finite-difference predicates (double only) use h = 1e-5 with bounds 1e-7 * conditioning",
+        "the implementation-side finite-difference predicates (double, generic class only) use h = 1e-5 with bounds 2e-8 * conditioning^3 (x10 for second derivatives)",
     ],
 )
